@@ -1593,7 +1593,7 @@ pub fn main(args: Args) {
     let f_calls = (n_method as i64) * (7 + n_calls as i64) * 2 * nt / 3;
     let f_params = (n_method as i64) * 4 * 2 * nt / 3;
     let f_tb = (n_tb as i64) * (3 + n_calls as i64) * 2 * nt / 3;
-    let f_widths = ((n_value + n_timing + n_method) as i64 / 4).min(80);
+    let f_widths = ((n_value + n_timing + n_method) as i64 / 8).min(45);
     let mut floors: Vec<(String, i64)> = vec![
         ("timing_cycles_compared".into(), f_timing),
         ("echo_cycles_compared".into(), f_value),
